@@ -482,7 +482,9 @@ class SymInt:
     def __ne__(self, o):
         return _cmp("ne", self, o)
 
-    __hash__ = None
+    def __hash__(self):
+        # dict/set key: forces the value (forks over the feasible values of a small domain)
+        return hash(concretize(self))
 
     def __bool__(self):
         return bool(_cmp("ne", self, 0))
@@ -510,7 +512,18 @@ def concretize(x, limit=512):
         if x.lo == x.hi:
             return x.lo
         if x.hi - x.lo >= limit:
-            unsupported(f"__index__ on symbolic int with domain [{x.lo},{x.hi}]")
+            # wide interval, possibly few feasible values: model-guided enumeration
+            for _ in range(limit):
+                m = CTX.get_model()
+                if m is None:
+                    unsupported("__index__ on symbolic int: no model")
+                w = x.w
+                v = m.eval(x.trunc(w), model_completion=True).as_long()
+                if v >= (1 << (w - 1)):
+                    v -= 1 << w
+                if x == v:
+                    return v
+            unsupported(f"__index__ on symbolic int with more than {limit} feasible values in [{x.lo},{x.hi}]")
         # binary search by forking keeps the number of decisions logarithmic
         lo, hi = x.lo, x.hi
         while lo < hi:
